@@ -172,7 +172,12 @@ fn run_dump(
     let thread = Thread::new(e, 1, &stack, &context);
     let system_info = SystemInfo::new(e)
         .set_processor_architecture(arch)
-        .set_platform_id(if os == 0 { 2 } else { 0x8201 });
+        .set_platform_id(match os {
+            0 => 2,      // Windows NT
+            1 => 0x8201, // Linux
+            2 => 0x8101, // macOS
+            _ => 0x8202, // Solaris: an OS the GPF test does not know
+        });
     let ctx_label = context.file_offset();
     let ctx_size = context.file_size();
     let mut dump = SynthMinidump::with_endian(e).add(context);
